@@ -38,6 +38,37 @@ def run(check: Check) -> None:
         r = ch_c14.classify(s, ch_c14.PYFLAGS[fl], ii)
         if r.startswith("escape") or r == "python-syntax":
             bad.append((s, r, {"flags": list(ch_c14.PYFLAGS[fl]), "ii": ii, "valid_python": True}))
+    # native fuzz companion (ground): character-level mutations of grammar-derived formulas under rotating flag subsets; every string
+    # gets a verdict (formula / parsing error) within 10 s - a parse that does not come back is neither
+    import signal
+
+    class _Slow(BaseException):  # not an Exception: classify() must not mistake it for something the parser raised
+        pass
+
+    def _alarm(*a):
+        raise _Slow()
+
+    old_handler = signal.signal(signal.SIGALRM, _alarm)
+    fl_rot = [("TWOSIDED", "MULTIPART"), (), ("TWOSIDED", "MULTIPART", "MULTISTAGE"), ("MULTIPART",)]
+    fuzz = ch_c14.fuzz_strings(check.seed * 5 + 2, 60000 if thorough else 6000) + ["(a + b) ** 200", "y ~ (.) ^ 132", "(a + b + c) ** 64 | (b) ** 999999"]
+    nf = 0
+    try:
+        for k, s in enumerate(fuzz):
+            fl, ii = fl_rot[k % 4], k % 5 != 0
+            signal.alarm(10)
+            try:
+                c = ch_c14.classify(s, fl, ii)
+            except _Slow:
+                c = "no-verdict-within-10s"
+            finally:
+                signal.alarm(0)
+            nf += 1
+            if c.startswith("escape") or c.startswith("no-verdict"):
+                bad.append((s, c, {"flags": list(fl), "ii": ii}))
+    finally:
+        signal.signal(signal.SIGALRM, old_handler)
+    n += nf
+    check.info["fuzz_strings"] = nf
     check.obligation("streams/native cross-validation", "ground", n - len(bad))
     for s, c, extra in bad[:20]:
         check.violation(f"{c}::{s}", f"{c}: formula {s!r} ({extra})", {"kind": "c14_string", "s": s, **extra})
